@@ -77,9 +77,12 @@ static const char *errname(int e) {
 /* stdout is fully buffered for speed; make sure everything printed before a sanitizer abort
  * reaches the transcript, so that the failing operation is the first one without a result */
 void __sanitizer_set_death_callback(void (*cb)(void)) __attribute__((weak));
-static void verif_flush_cb(void) { fflush(stdout); }
 #include <signal.h>
-static void verif_abort_handler(int sig) { (void) sig; fflush(stdout); _exit(99); }
+#include <unistd.h>
+/* a scratch file the harness owns (removed on every exit path, also a sanitizer death) */
+static const char *verif_tmp_path = NULL;
+static void verif_flush_cb(void) { fflush(stdout); if (verif_tmp_path) unlink(verif_tmp_path); }
+static void verif_abort_handler(int sig) { (void) sig; verif_flush_cb(); _exit(99); }
 static void harness_init(void) {
     setvbuf(stdout, NULL, _IOFBF, 1 << 16);
     if (__sanitizer_set_death_callback) __sanitizer_set_death_callback(verif_flush_cb);
